@@ -1,3 +1,7 @@
+#[allow(unused_imports)] use vstd::arithmetic::{div_mod::*, power2::*, mul::*};
+#[allow(unused_imports)] use vstd::bits::*;
+#[allow(unused_imports)] use vstd::std_specs::bits::*;
+
 verus! {
 /// p < 199: membership in SMALL_PRIMES is primality (generated: 199 trial-division facts by computation,
 /// 46 element facts of the real constant)
